@@ -13,7 +13,7 @@
      noempty_t            no empty group *)
 From Coq Require Import List NArith Permutation Sorted.
 From HV Require Import Base.Res Base.Str Model.Dups Gen.C04Codes
-  Proofs.DupsProofs Proofs.DupsCount Proofs.DupsRules Proofs.DupsKey.
+  Proofs.DupsProofs Proofs.DupsCount Proofs.DupsRules Proofs.DupsKey Proofs.DupsSession.
 Import ListNotations.
 
 (* ---- placement rules (tagGroup / topLevelTagGroup / several top-level tags / empty group) ---- *)
@@ -199,6 +199,38 @@ Theorem C04_group_rules_invariant_order_partial : forall m nreq nuniq top top',
                Permutation (validate_duration_tags top) (validate_duration_tags top').
 Proof. exact group_checks_perm_except_dups. Qed.
 Print Assumptions C04_group_rules_invariant_order_partial.
+
+(* ---- sessions: rows validated one after the other with one object ----
+   The group rules keep no state: the verdict of a row after any history is the
+   verdict of the row alone, so the invariance theorems hold after any history.
+   (Tag resolution is an input of the model; that the schema object does not
+   remember earlier spellings is TESTED by the history oracle, not proved here.) *)
+Theorem C04_history_independent : forall s h row,
+  nth (length h) (snd (session_run s (h ++ [row]))) (Exn Unmodelled)
+  = group_checks (s_mode s) (s_nreq s) (s_nuniq s) row.
+Proof. exact history_independent. Qed.
+Print Assumptions C04_history_independent.
+
+Theorem C04_session_state_constant : forall s rows, fst (session_run s rows) = s.
+Proof. exact session_state_constant. Qed.
+Print Assumptions C04_session_state_constant.
+
+Theorem C04_history_order_invariant : forall nreq nuniq h h' top top',
+  PermForest top top' -> forallb wft top = true -> forallb noempty_t top = true ->
+  exists l l',
+    nth (length h) (snd (session_run (fixed_session nreq nuniq) (h ++ [top]))) (Exn Unmodelled) = Ok l /\
+    nth (length h') (snd (session_run (fixed_session nreq nuniq) (h' ++ [top']))) (Exn Unmodelled) = Ok l' /\
+    Permutation l l'.
+Proof. exact history_order_invariant. Qed.
+Print Assumptions C04_history_order_invariant.
+
+Theorem C04_history_spelling_invariant : forall nreq nuniq h h' top top',
+  Respell top top' -> forallb wft top = true -> forallb noempty_t top = true ->
+  exists l,
+    nth (length h) (snd (session_run (fixed_session nreq nuniq) (h ++ [top]))) (Exn Unmodelled) = Ok l /\
+    nth (length h') (snd (session_run (fixed_session nreq nuniq) (h' ++ [top']))) (Exn Unmodelled) = Ok l.
+Proof. exact history_spelling_invariant. Qed.
+Print Assumptions C04_history_spelling_invariant.
 
 (* non-vacuity: a depth-3 annotation with a planted reordered duplicate meets the hypotheses *)
 Example C04_nonvacuous :
